@@ -129,6 +129,20 @@ def run_sequence(cs, ctx):
         spec = sp.make_spec(rng, allow_empty_lists=False, shape=rng.choice(['long_lists', 'long_lists', 'dense', 'no_ties', 'lowerq', 'tight_lecturer', 'one_lecturer']))
         opts = sp.make_opts(rng, spec, ncrit=rng.choice([0, 1, 1, 2, 2, 3, 3]),
                             crit_pool=['gen', 'gre', 'gen', 'gre', 'maxsize', 'minsize', 'mincost', 'minsqcost', 'lmb', 'lsb', 'mincostlsb'])
+        if rng.random() < 0.12:
+            # a criterion whose objective is constant (both multipliers 0): its objective variable is fixed by its bounds
+            hit = False
+            for c in opts['crits']:
+                if c[0] in ('mincost', 'minsqcost', 'mincostlsb'):
+                    c[2] = [0, 0]
+                    hit = True
+            if not hit and len(opts['crits']) < 3:
+                used = {c[1] for c in opts['crits']}
+                pos = next(p for p in range(1, 10) if p not in used)
+                opts['crits'].append([rng.choice(['mincost', 'minsqcost', 'mincostlsb']), pos, [0, 0]])
+                hit = True
+            if hit:
+                ctx.cnt('sequences_with_a_constant_objective')
         ref = en.reference(spec, opts)
         if ref['enumerable'] and ref['feasible']:
             break
@@ -255,12 +269,15 @@ def resolve_schedules(spec, opts, text, argv, K, ctx, rng, base):
 def real_infeasible(cs, ctx):
     """No injection: really infeasible instances must show Infeasible and no matching."""
     rng = random.Random(cs)
-    for i in range(12):
+    for i in range(24):
         spec = sp.make_spec(rng, shape='lowerq')
-        opts = sp.make_opts(rng, spec)
+        # with closures the relaxation is often feasible while no integer point is ("integer infeasible")
+        opts = sp.make_opts(rng, spec, pc=True if i % 2 else None)
         ref = en.reference(spec, opts)
         if not ref['enumerable'] or ref['feasible']:
             continue
+        if opts['pc']:
+            ctx.cnt('real_infeasible_runs_with_closures')
         lim = rng.choice([None, 5.0])
         ex = en.run_lp(spec, opts, ctx.workdir, rng, inject=False, time_limit=lim, getters=('short', 'long'))
         ctx.cnt('schedules_executed')
